@@ -234,6 +234,36 @@ Theorem pairing_mgmt_ble_never_done : forall op d reply,
     bad_reply d 2 -> exists e, mgmt_ble op (wrap reply) = Err e.
 Proof. exact mgmt_ble_never_done. Qed.
 
+(* ==== round 6: items sent NEXT TO a FragmentData / FragmentLast item (fixes/C04-ble-fragment-siblings.patch) ====
+   [ble_siblings 50 xs] = every non-fragment item of every payload the loop consumes, in arrival order. *)
+Theorem ble_nothing_beside_a_fragment_is_lost : forall xs d,
+    ble_exchange xs = Ok d -> exists blob, d = ble_siblings 50 xs ++ blob.
+Proof. exact ble_exchange_shape. Qed.
+
+(* ANY exchange script: an Error item in ANY consumed payload - beside a fragment item, before or after it, in
+   the first, a middle or the last payload - fails the step *)
+Theorem ble_error_beside_fragment_never_success : forall s o xs p,
+    has_error (ble_siblings 50 xs) -> step_ble s o xs <> Ok p.
+Proof. exact ble_sibling_error_never_ok. Qed.
+
+(* a wrong State beside a fragment item fails the step unless the reassembled reply carries its own State
+   (which then wins, as a later duplicate wins inside one reply) *)
+Theorem ble_wrong_state_beside_fragment_never_success : forall s o xs p d,
+    ble_exchange xs = Ok d ->
+    (forall blob, d = ble_siblings 50 xs ++ blob -> lookup tState blob = None) ->
+    wrong_state (ble_siblings 50 xs) (expected_state s) -> step_ble s o xs <> Ok p.
+Proof. exact ble_sibling_state_never_ok. Qed.
+
+(* the defect on the unrepaired loop: State=M4, Error=Authentication, FragmentLast="" in ONE payload reached the
+   generator as the empty dict (=> session keys); repaired: AuthenticationError *)
+Example defect_c_ble_fragment_siblings :
+  let payload := [6%N; 1%N; 4%N; 7%N; 1%N; 2%N; 13%N; 0%N] in
+  pairing_char_write_unrepaired 50 [wrap payload] [] = Ok [] /\
+  step_items VerifyM4 good_oracles [] = Ok PKeys /\
+  step_ble VerifyM4 good_oracles [wrap payload] = Err EAuthentication /\
+  step_ble VerifyM4 good_oracles [wrap [12%N; 0%N; 6%N; 1%N; 5%N]; wrap [13%N; 0%N]] = Err EInvalid.
+Proof. cbv zeta. repeat split; vm_compute; reflexivity. Qed.
+
 (* HISTORIES of add/remove-pairing calls on one BlePairing (any calls before, any link drops and retries within
    the call): a call is reported done only if the transaction that was finally answered succeeded at PDU level and
    its reply carries no Error item and no wrong State - no state may survive from earlier calls or attempts *)
@@ -341,3 +371,6 @@ Print Assumptions pairing_mgmt_class_injective.
 Print Assumptions wire_never_out_of_fuel.
 Print Assumptions ble_never_out_of_fuel.
 Print Assumptions pairing_mgmt_history_done_only_on_clean_last_reply.
+Print Assumptions ble_nothing_beside_a_fragment_is_lost.
+Print Assumptions ble_error_beside_fragment_never_success.
+Print Assumptions ble_wrong_state_beside_fragment_never_success.
